@@ -15,11 +15,9 @@ the tree the models describe; they are never edited by hand except together with
 namespace Juniper.Proofs.Helpers.Shapes
 open Juniper.Gen.Helpers
 
-/-- `All` -/
 theorem shapeAll_pinned : shapeAll = ["for i := range s { if !f(s[i]) { return false } }",
   "return true"] := rfl
 
-/-- `Chunk` -/
 theorem shapeChunk_pinned : shapeChunk = ["if chunkSize <= 0 {",
   "panic(\"xslices.Chunk: chunkSize must be positive\")",
   "}",
@@ -27,27 +25,22 @@ theorem shapeChunk_pinned : shapeChunk = ["if chunkSize <= 0 {",
   "for i := range out { start := i * chunkSize end := (i + 1) * chunkSize if end > len(s) { end = len(s) } out[i] = s[start:end] }",
   "return out"] := rfl
 
-/-- `CountFunc` -/
 theorem shapeCountFunc_pinned : shapeCountFunc = ["n := 0",
   "for _, s := range s { if f(s) { n++ } }",
   "return n"] := rfl
 
-/-- `Fill` -/
 theorem shapeFill_pinned : shapeFill = ["for i := range s { s[i] = x }"] := rfl
 
-/-- `Group` -/
 theorem shapeGroup_pinned : shapeGroup = ["m := make(map[U][]T)",
   "for i := range s { g := f(s[i]) m[g] = append(m[g], s[i]) }",
   "return m"] := rfl
 
-/-- `Join` -/
 theorem shapeJoin_pinned : shapeJoin = ["n := 0",
   "for i := range in { n += len(in[i]) }",
   "out := make([]T, 0, n)",
   "for i := range in { out = append(out, in[i]...) }",
   "return out"] := rfl
 
-/-- `LastIndex` -/
 theorem shapeLastIndex_pinned : shapeLastIndex = ["for i >= 0 {",
   "if s[i] == x {",
   "return i",
@@ -55,7 +48,6 @@ theorem shapeLastIndex_pinned : shapeLastIndex = ["for i >= 0 {",
   "}",
   "return -1"] := rfl
 
-/-- `LastIndexFunc` -/
 theorem shapeLastIndexFunc_pinned : shapeLastIndexFunc = ["for i >= 0 {",
   "if f(s[i]) {",
   "return i",
@@ -63,12 +55,10 @@ theorem shapeLastIndexFunc_pinned : shapeLastIndexFunc = ["for i >= 0 {",
   "}",
   "return -1"] := rfl
 
-/-- `Map` -/
 theorem shapeMap_pinned : shapeMap = ["out := make([]U, len(s))",
   "for i := range s { out[i] = f(s[i]) }",
   "return out"] := rfl
 
-/-- `Partition` -/
 theorem shapePartition_pinned : shapePartition = ["i := 0",
   "j := len(s) - 1",
   "for {",
@@ -98,12 +88,10 @@ theorem shapePartition_pinned : shapePartition = ["i := 0",
   "}",
   "return i"] := rfl
 
-/-- `Reduce` -/
 theorem shapeReduce_pinned : shapeReduce = ["out := initial",
   "for i := range s { out = f(out, s[i]) }",
   "return out"] := rfl
 
-/-- `RemoveUnordered` -/
 theorem shapeRemoveUnordered_pinned : shapeRemoveUnordered = ["keepStart := len(s) - n",
   "removeEnd := idx + n",
   "if removeEnd > keepStart {",
@@ -113,17 +101,14 @@ theorem shapeRemoveUnordered_pinned : shapeRemoveUnordered = ["keepStart := len(
   "Clear(s[len(s)-n:])",
   "return s[:len(s)-n]"] := rfl
 
-/-- `Repeat` -/
 theorem shapeRepeat_pinned : shapeRepeat = ["out := make([]T, n)",
   "for i := range out { out[i] = s }",
   "return out"] := rfl
 
-/-- `Reverse` -/
 theorem shapeReverse_pinned : shapeReverse = ["for i < len(s)/2 {",
   "s[i], s[len(s)-i-1] = s[len(s)-i-1], s[i]",
   "}"] := rfl
 
-/-- `Runs` -/
 theorem shapeRuns_pinned : shapeRuns = ["var runs [][]T",
   "start := 0",
   "end := 0",
@@ -144,7 +129,6 @@ theorem shapeRuns_pinned : shapeRuns = ["var runs [][]T",
   "}",
   "return runs"] := rfl
 
-/-- `Shrink` -/
 theorem shapeShrink_pinned : shapeShrink = ["if cap(s) > len(s)+n {",
   "x2 := make([]T, len(s)+n)",
   "copy(x2, s)",
@@ -152,23 +136,18 @@ theorem shapeShrink_pinned : shapeShrink = ["if cap(s) > len(s)+n {",
   "}",
   "return s"] := rfl
 
-/-- `Unique` -/
 theorem shapeUnique_pinned : shapeUnique = ["return uniqueInto([]T{}, s)"] := rfl
 
-/-- `UniqueInPlace` -/
 theorem shapeUniqueInPlace_pinned : shapeUniqueInPlace = ["filtered := uniqueInto(s[:0], s)",
   "Clear(s[len(filtered):])",
   "return filtered"] := rfl
 
-/-- `uniqueInto` -/
 theorem shapeUniqueInto_pinned : shapeUniqueInto = ["m := make(map[T]struct{}, len(s))",
   "for i := range s { _, ok := m[s[i]] if !ok { into = append(into, s[i]) m[s[i]] = struct{}{} } }",
   "return into"] := rfl
 
-/-- `Search` -/
 theorem shapeSearch_pinned : shapeSearch = ["return sort.Search(len(x), func(i int) bool { return less(item, x[i]) || !less(x[i], item) })"] := rfl
 
-/-- `mergeIterator.Next` -/
 theorem shapeMergeNext_pinned : shapeMergeNext = ["if iter.h.Len() == 0 {",
   "var zero T",
   "return zero, false",
@@ -180,13 +159,11 @@ theorem shapeMergeNext_pinned : shapeMergeNext = ["if iter.h.Len() == 0 {",
   "}",
   "return item.value, true"] := rfl
 
-/-- `Merge` -/
 theorem shapeMerge_pinned : shapeMerge = ["initial := make([]valueAndSource[T], 0, len(in))",
   "for i := range in { item, ok := in[i].Next() if !ok { continue } initial = append(initial, valueAndSource[T]{item, i}) }",
   "h := heap.New( func(a, b valueAndSource[T]) bool { return less(a.value, b.value) }, func(a valueAndSource[T], i int) {}, initial, )",
   "return &mergeIterator[T]{ in: in, h: h, }"] := rfl
 
-/-- `MergeSlices` -/
 theorem shapeMergeSlices_pinned : shapeMergeSlices = ["n := 0",
   "for i := range in { n += len(in[i]) }",
   "out = xslices.Grow(out[:0], n)",
@@ -200,7 +177,6 @@ theorem shapeMergeSlices_pinned : shapeMergeSlices = ["n := 0",
   "}",
   "return out"] := rfl
 
-/-- `MinK` -/
 theorem shapeMinK_pinned : shapeMinK = ["h := heap.New[T](heap.Less[T](Reverse(less)), func(a T, i int) {}, nil)",
   "for {",
   "item, ok := iter.Next()",
@@ -218,23 +194,19 @@ theorem shapeMinK_pinned : shapeMinK = ["h := heap.New[T](heap.Less[T](Reverse(l
   "}",
   "return out"] := rfl
 
-/-- `Reverse` -/
 theorem shapeMapReverse_pinned : shapeMapReverse = ["result := make(map[V][]K, len(m))",
   "for k, v := range m { result[v] = append(result[v], k) }",
   "return result"] := rfl
 
-/-- `ReverseSingle` -/
 theorem shapeReverseSingle_pinned : shapeReverseSingle = ["result := make(map[V]K, len(m))",
   "allOk := true",
   "for k, v := range m { if _, ok := result[v]; ok { allOk = false } result[v] = k }",
   "return result, allOk"] := rfl
 
-/-- `ToIndex` -/
 theorem shapeToIndex_pinned : shapeToIndex = ["m := make(map[K]int, len(keys))",
   "for i := range keys { m[keys[i]] = i }",
   "return m"] := rfl
 
-/-- `FromKeysAndValues` -/
 theorem shapeFromKeysAndValues_pinned : shapeFromKeysAndValues = ["if len(keys) != len(values) {",
   "panic(fmt.Sprintf(\"len(keys)=%d, len(values)=%d\", len(keys), len(values)))",
   "}",
@@ -243,19 +215,16 @@ theorem shapeFromKeysAndValues_pinned : shapeFromKeysAndValues = ["if len(keys) 
   "for i := range keys { if _, ok := m[keys[i]]; ok { allOk = false } m[keys[i]] = values[i] }",
   "return m, allOk"] := rfl
 
-/-- `SetFromSlice` -/
 theorem shapeSetFromSlice_pinned : shapeSetFromSlice = ["result := make(Set[T], len(items))",
   "for _, k := range items { result[k] = struct{}{} }",
   "return result"] := rfl
 
-/-- `Union` -/
 theorem shapeUnion_pinned : shapeUnion = ["size := 0",
   "for _, set := range sets { if len(set) > size { size = len(set) } }",
   "out := make(S, size)",
   "for _, set := range sets { for k := range set { out[k] = struct{}{} } }",
   "return out"] := rfl
 
-/-- `Intersection` -/
 theorem shapeIntersection_pinned : shapeIntersection = ["out := make(S)",
   "if len(sets) == 0 {",
   "return out",
@@ -265,7 +234,6 @@ theorem shapeIntersection_pinned : shapeIntersection = ["out := make(S)",
   "for k := range sets[0] { include := true for j := 1; j < len(sets); j++ { if _, ok := sets[j][k]; !ok { include = false break } } if include { out[k] = struct{}{} } }",
   "return out"] := rfl
 
-/-- `Intersects` -/
 theorem shapeIntersects_pinned : shapeIntersects = ["if len(sets) == 0 {",
   "return false",
   "}",
@@ -274,7 +242,6 @@ theorem shapeIntersects_pinned : shapeIntersects = ["if len(sets) == 0 {",
   "for k := range sets[0] { include := true for j := 1; j < len(sets); j++ { if _, ok := sets[j][k]; !ok { include = false break } } if include { return true } }",
   "return false"] := rfl
 
-/-- `Difference` -/
 theorem shapeDifference_pinned : shapeDifference = ["size := len(a) - len(b)",
   "if size < 0 {",
   "size = 0",
@@ -283,7 +250,6 @@ theorem shapeDifference_pinned : shapeDifference = ["size := len(a) - len(b)",
   "for k := range a { if _, ok := b[k]; !ok { result[k] = struct{}{} } }",
   "return result"] := rfl
 
-/-- `WithStack` -/
 theorem shapeWithStack_pinned : shapeWithStack = ["if err == nil {",
   "return nil",
   "}",
@@ -304,13 +270,10 @@ theorem shapeWithStack_pinned : shapeWithStack = ["if err == nil {",
   "}",
   "return withStack{ inner: err, pc: ptrs, }"] := rfl
 
-/-- `withStack.Unwrap` -/
 theorem shapeUnwrap_pinned : shapeUnwrap = ["return err.inner"] := rfl
 
-/-- `rShuffle` -/
 theorem shapeRShuffle_pinned : shapeRShuffle = ["r.Shuffle(len(a), func(i, j int) { a[i], a[j] = a[j], a[i] })"] := rfl
 
-/-- `rSample` -/
 theorem shapeRSample_pinned : shapeRSample = ["out := make([]int, k)",
   "samp := newSampler(r, k)",
   "for {",
@@ -326,7 +289,6 @@ theorem shapeRSample_pinned : shapeRSample = ["out := make([]int, k)",
   "rShuffle(r, out)",
   "return out"] := rfl
 
-/-- `rSampleSlice` -/
 theorem shapeRSampleSlice_pinned : shapeRSampleSlice = ["out := make([]T, k)",
   "samp := newSampler(r, k)",
   "for {",
@@ -342,7 +304,6 @@ theorem shapeRSampleSlice_pinned : shapeRSampleSlice = ["out := make([]T, k)",
   "rShuffle(r, out)",
   "return out"] := rfl
 
-/-- `rSampleIterator` -/
 theorem shapeRSampleIterator_pinned : shapeRSampleIterator = ["out := make([]T, k)",
   "i := 0",
   "samp := newSampler(r, k)",
@@ -353,7 +314,6 @@ theorem shapeRSampleIterator_pinned : shapeRSampleIterator = ["out := make([]T, 
   "rShuffle(r, out)",
   "return out"] := rfl
 
-/-- `rSampleStream` -/
 theorem shapeRSampleStream_pinned : shapeRSampleStream = ["defer s.Close()",
   "out := make([]T, k)",
   "i := 0",
@@ -365,7 +325,6 @@ theorem shapeRSampleStream_pinned : shapeRSampleStream = ["defer s.Close()",
   "rShuffle(r, out)",
   "return out, nil"] := rfl
 
-/-- `sampler.Next` -/
 theorem shapeSamplerNext_pinned : shapeSamplerNext = ["if s.i < s.k {",
   "j := s.i",
   "s.i++",
@@ -383,7 +342,6 @@ theorem shapeSamplerNext_pinned : shapeSamplerNext = ["if s.i < s.k {",
   "s.w *= math.Exp(math.Log(s.r.Float64()) / float64(s.k))",
   "return s.i, s.r.Intn(s.k)"] := rfl
 
-/-- `newSampler` -/
 theorem shapeNewSampler_pinned : shapeNewSampler = ["return sampler[R]{ i: 0, first: true, w: math.Exp(math.Log(r.Float64()) / float64(k)), k: k, r: r, }"] := rfl
 
 end Juniper.Proofs.Helpers.Shapes
